@@ -70,14 +70,14 @@ pub fn batch_case(n: usize) -> Case {
                 let (a, b) = (elems(&out[i]), elems(&p));
                 ctx.fact(&format!("shape[{}]", i), dims(&out[i]) == dims(&p), String::new());
                 for j in 0..a.len().min(b.len()) {
-                    ctx.claim(&format!("batch[{}][{}]", i, j), Th::Fp, B::Same(a[j], b[j]));
+                    ctx.claim(&format!("batch[{}][{}]", i, j), Th::Fp, B::Ident(a[j], b[j]));
                 }
             }
             // predict == final activation of forward
             let (_, activated, _, _) = net.forward(&xs[0]);
             let (a, b) = (elems(&net.predict(&xs[0])), elems(activated.last().unwrap()));
             for j in 0..a.len().min(b.len()) {
-                ctx.claim(&format!("predict-is-last-activation[{}]", j), Th::Fp, B::Same(a[j], b[j]));
+                ctx.claim(&format!("predict-is-last-activation[{}]", j), Th::Fp, B::Ident(a[j], b[j]));
             }
         }),
     }
